@@ -167,7 +167,10 @@ def check_random(sub, item):
         with quiet():
             res = rmod.RandomGen.sample(comp.block, len(accepted) + 7)
         got = sorted(stable_hash(plain(s)) for s in res.samples)
-        want = sorted(stable_hash(plain(c.names)) for c in accepted)
+        uniq = {}
+        for c in accepted:
+            uniq.setdefault(frozenset(c.x), c)
+        want = sorted(stable_hash(plain(c.names)) for c in uniq.values())   # every valid assignment exactly once
         if got != want:
             sub.violation(f'exhaust:{key}', f'{label}: asking RandomGen for {len(accepted) + 7} sequences returns '
                           f'{len(got)} ({len(set(got))} distinct); {len(want)} accepted candidates exist '
@@ -252,6 +255,9 @@ def replay_random(data):
         if q == 'count':
             return res.metrics.get('solution_count') != data['n']
         got = sorted(stable_hash(plain(s)) for s in res.samples)
-        want = sorted(stable_hash(plain(c.names)) for c in accepted)
+        uniq = {}
+        for c in accepted:
+            uniq.setdefault(frozenset(run_to_x(comp.block, c.run)), c)
+        want = sorted(stable_hash(plain(c.names)) for c in uniq.values())
         return got != want
     return False
